@@ -7,6 +7,8 @@
 #include "STPSolver.h"
 #include "Converter.h"
 
+#include <common/ApiException.h>
+
 namespace opensmt {
 
 static SolverDescr descr_stp_solver("STP Solver", "Solver for Simple Temporal Problem (Difference Logic)");
@@ -22,9 +24,14 @@ template<class T>
 typename STPSolver<T>::ParsedPTRef STPSolver<T>::parseRef(PTRef ref) const {
     // inequalities are in the form (c <= (x + (-1 * y)))
     // due to how LALogic creates terms, we won't ever encounter <, >, or >= inequalities
-    assert(logic.isLeq(ref));
-    Pterm &leq = logic.getPterm(ref);
-    assert(logic.isNumConst(leq[0]));
+    // Anything else (sums of variables, scaled variables, more than two variables) is outside difference logic:
+    // it must be rejected here, in release builds too, otherwise it is silently read as some other constraint.
+    auto notDifference = [&]() -> ApiException {
+        return ApiException("Not a difference-logic atom: " + logic.pp(ref));
+    };
+    if (not logic.isLeq(ref)) { throw notDifference(); }
+    Pterm const & leq = logic.getPterm(ref);
+    if (not logic.isNumConst(leq[0])) { throw notDifference(); }
     auto c = -logic.getNumConst(leq[0]);  // -'c': since we want the form (y <= x + c), the constant is negated
     PTRef rhs = leq[1];  // 'x + (-1 * y)'
 
@@ -33,23 +40,25 @@ typename STPSolver<T>::ParsedPTRef STPSolver<T>::parseRef(PTRef ref) const {
         x = rhs;
         y = PTRef_Undef;
     } else {  // right hand side contains at least a negative variable
-        Pterm &rhsPt = logic.getPterm(rhs);
+        Pterm const & rhsPt = logic.getPterm(rhs);
         PTRef mul{};  // (-1 * y) term
         if (logic.isPlus(rhs)) {  // usual DL inequality with two variables
+            if (rhsPt.size() != 2) { throw notDifference(); }
             uint8_t ix = logic.isNumVar(rhsPt[0]) ? 0 : 1;
             uint8_t iy = 1 - ix;
             x = rhsPt[ix];
             mul = rhsPt[iy];
+            if (not logic.isNumVar(x)) { throw notDifference(); }
         } else { // RHS contains just a negative variable
             x = PTRef_Undef;
             mul = rhs;
         }
 
-        assert(logic.isTimes(mul));
-        Pterm &mulPt = logic.getPterm(mul);
-        assert(logic.isNumConst(mulPt[0]) && logic.getNumConst(mulPt[0]) == -1);
+        if (not logic.isTimes(mul)) { throw notDifference(); }
+        Pterm const & mulPt = logic.getPterm(mul);
+        if (mulPt.size() != 2 or not logic.isNumConst(mulPt[0]) or logic.getNumConst(mulPt[0]) != -1) { throw notDifference(); }
         y = mulPt[1];
-        assert(logic.isNumVar(y));
+        if (not logic.isNumVar(y)) { throw notDifference(); }
     }
     return ParsedPTRef{x, y, Converter<T>::getValue(c)};
 }
@@ -62,9 +71,9 @@ void STPSolver<T>::declareAtom(PTRef tr) {
     // to some constant
 
     if (isInformed(tr)) { return; }
-    setInformed(tr);
 
-    auto parsed = parseRef(tr);
+    auto parsed = parseRef(tr);  // throws on atoms outside difference logic; the atom then stays undeclared
+    setInformed(tr);
 
     // find out if edge already exists (created as part of a negation)
     VertexRef x = mapper.getVertRef(parsed.x);
